@@ -129,6 +129,9 @@ func verifyTPMAttestationStatementCertInfo(
 		return fmt.Errorf("%w: %s", ErrInvalidAttestationStatement, err)
 	}
 
+	if tpmCertInfo.AttestedCertifyInfo == nil || tpmCertInfo.AttestedCertifyInfo.Name.Digest == nil {
+		return fmt.Errorf("%w: certify info name is not a digest", ErrInvalidAttestationStatement)
+	}
 	ch, err := tpmCertInfo.AttestedCertifyInfo.Name.Digest.Alg.Hash()
 	if err != nil {
 		return fmt.Errorf("%w: %s", ErrInvalidAttestationStatement, err)
